@@ -444,3 +444,8 @@ mod tests {
         assert_eq!(blocks, 0);
     }
 }
+
+#[cfg(kani)]
+mod verif {
+    include!(concat!(env!("PROFIRUST_VERIF_HARNESS"), "/dp_diagnostics.rs"));
+}
